@@ -561,6 +561,19 @@ def r3(ctx, dr, ex, outs, msg):
                        "dedupe memory written outside __init__/track_reliable (ids can be forgotten or forged)")
         ctx.floor("C19.R3", f"writers of {attr}", nw, 1)
 
+    # the dedupe memory is bounded by a COUNT of other packets (deque(maxlen=N)): after N other reliable packets a
+    # retransmission of an older one is new again - recorded limitation (D65)
+    for k in repo.mro(ccls):
+        init = k.methods.get("__init__")
+        for st in (stores(init.node) if init is not None else []):
+            if st.path == "self.seen_reliable" and st.kind == "assign" and st.value is not None:
+                bounded = isinstance(st.value, ast.Call) and call_attr(st.value) == "deque" and \
+                    any(kw_.arg == "maxlen" and not (isinstance(kw_.value, ast.Constant) and kw_.value.value is None)
+                        for kw_ in st.value.keywords)
+                ctx.ob("C19.R3", "Circuit.seen_reliable: the dedupe memory is not bounded by a count of other packets",
+                       not bounded, ctx.w(init, st.node),
+                       f"`{norm(st.value)}`: once that many other reliable packets arrived, a retransmission of an older "
+                       f"packet is no longer recognised and is dispatched to every subscriber again")
     # ---- send_reliable hands out the entry's completion future
     sr = repo.fn("Circuit.send_reliable", BCIRC)
     send = repo.fn("Circuit.send", BCIRC)
@@ -688,6 +701,13 @@ def r5(ctx):
         anc = list(ancestors(c))
         okt = okt or (any(isinstance(a, (ast.For, ast.AsyncFor)) and (ap(a.iter) or "").endswith("session.regions") for a in anc)
                       and any(isinstance(a, ast.While) for a in anc))
+    for c in find_calls(ar.node, "resend_unacked"):
+        gated = [("" if pol else "not ") + norm(e) for e, pol in facts(c, ar.node) if "is_alive" in src(e)]
+        ctx.ob("C19.R5", "HippoClient._attempt_resends: resend_unacked is polled whether or not the circuit is marked alive",
+               not gated, ctx.w(ar, c),
+               f"the poll depends on {gated}: a circuit is created with is_alive False and only marked alive after its "
+               f"reliable UseCircuitCode was acked, so that first send is never retransmitted and never fails "
+               f"(connect() / login() hang on one lost datagram)")
     ctx.ob("C19.R5", "HippoClient._attempt_resends drives resend_unacked for every region, repeatedly", okt, ar.where,
            "no periodic resend: an unacknowledged reliable send neither completes nor fails")
 
